@@ -117,8 +117,13 @@ theorem initTable_fresh (t0 : Table) (size : Nat) (hf : Fresh t0) (hlss : t0.lss
     (initTable t0 size).secondaryHeader < two64 ∧ (initTable t0 size).firstData < two64 ∧
     (initTable t0 size).lastData < two64 := by
   unfold initTable
-  simp only [hf.ac, hf.es, hf.ph, hf.sh, hf.fd, hf.ld, if_true]
-  rcases hlss with h | h <;> simp [h, u64, u64sub, two64] <;> omega
+  rcases hlss with h | h
+  all_goals
+    simp only [hf.ac, hf.es, hf.ph, hf.sh, hf.fd, hf.ld, if_true, h]
+    refine ⟨by simp, by simp, by simp, by simp, trivial, trivial, ?_, ?_, ?_⟩
+    · simp only [u64sub, two64]; omega
+    · simp only [u64, two64]; omega
+    · simp only [u64sub, two64]; omega
 
 /-- the whole table: for EVERY prior device content `d`, what `Write` emits for a fresh, well-formed
     table reads back through gpt.Read — from the primary copy — as the partitions `Write` was left
